@@ -30,8 +30,7 @@ ASSUMPTIONS = ["value texts are canonical for their type (ints in [-2^31, 2^31) 
 RULE = ("messages generated from the dumped metadata: every message type, mandatory fields plus a random optional subset, values per "
         "field type (negative floats, '=' inside strings, boundary dates/times), groups with 0..3 elements nested to the schema's depth, "
         "empty groups, random insertion order; BodyLength exactly on and next to the digit-count boundaries 99/100/101, 999/1000/1001 (padded string field, messages with and without groups); each is built through the generic API, encoded, decoded by Message::factory, dumped, "
-        "re-encoded on both sides. negative ints and INT_MIN/INT_MAX (fixed finding F01: must round-trip); known-finding classes: floats whose real rendering changes the value (0.995, "
-        "|v| >= 2^31), elements without their first field. non-trivial = all three stages OK with >= 8 tokens; distinct = distinct lines")
+        "re-encoded on both sides. negative ints and INT_MIN/INT_MAX (fixed finding F01: must round-trip); known-finding classes: floats whose real rendering changes the value (|v| > 2^31 - 1: %e rendering), elements without their first field. non-trivial = all three stages OK with >= 8 tokens; distinct = distinct lines")
 
 
 def schemas(tier):
@@ -77,7 +76,9 @@ def is_float(meta, fnum):
     return G.FT_FLOAT <= ty <= G.FT_END_FLOAT
 
 
-BAD_FLOATS = [b"0.995", b"2147483648.0", b"3000000000.5", b"-2147483649.25", b"4294967296.0", b"12345678901.5"]
+# floats above thres_max = 2^31 - 1 are printed with sprintf("%e") (7 significant digits); the tie-branch
+# carry (0.995 -> 0.1) was repaired in /repo a6c4c45; 2-decimal values up to 2^31 - 1 print exactly
+BAD_FLOATS = [b"2147483647.5", b"2147483648.0", b"3000000000.5", b"-2147483649.25", b"4294967296.0", b"12345678901.5", b"-2147483647.75"]
 
 
 def gen_cases(rng, tier):
